@@ -236,7 +236,7 @@ class ASTString(ASTTemplate):
             return vtl_script
 
     def visit_DPRIdentifier(self, node: AST.DPRIdentifier) -> str:
-        vtl_script = f"{node.value}"
+        vtl_script = f"{_format_reserved_word(node.value)}"
         if node.alias is not None:
             vtl_script += f" as {node.alias}"
         return vtl_script
@@ -280,9 +280,11 @@ class ASTString(ASTTemplate):
         if node.default_value is not None:
             clauses_strs.append(f'else "{node.default_value}"')
 
+        name = _format_reserved_word(node.name)
+        target = _format_reserved_word(node.target)
         if self.pretty:
             self.vtl_script += (
-                f"define viral propagation {node.name}({node.signature_type} {node.target}) is{nl}"
+                f"define viral propagation {name}({node.signature_type} {target}) is{nl}"
             )
             for i, c in enumerate(clauses_strs):
                 self.vtl_script += f"{tab}{c}"
@@ -294,8 +296,8 @@ class ASTString(ASTTemplate):
         else:
             clauses_joined = ";".join(clauses_strs)
             self.vtl_script += (
-                f"define viral propagation {node.name} "
-                f"({node.signature_type} {node.target}) is "
+                f"define viral propagation {name} "
+                f"({node.signature_type} {target}) is "
                 f"{clauses_joined} "
                 f"end viral propagation;"
             )
@@ -544,7 +546,9 @@ class ASTString(ASTTemplate):
         # Build components string if present
         components_str = ""
         if node.components:
-            components_str = " components " + ", ".join(node.components)
+            components_str = " components " + ", ".join(
+                [_format_reserved_word(x) for x in node.components]
+            )
 
         # Output mode (only include if not default "invalid")
         output_str = ""
@@ -750,7 +754,7 @@ class ASTString(ASTTemplate):
                 return f"{dataset}[{node.op} {body}]"
 
     def visit_RenameNode(self, node: AST.RenameNode) -> str:
-        return f"{node.old_name} to {node.new_name}"
+        return f"{_format_reserved_word(node.old_name)} to {_format_reserved_word(node.new_name)}"
 
     def visit_TimeAggregation(self, node: AST.TimeAggregation) -> str:
         if node.period_to_ref is not None:
